@@ -41,7 +41,7 @@ func (s *Sim) genAddInvoice() SubCmd {
 	if delta < 1 {
 		delta = 1
 	}
-	expiry := []time.Duration{300 * time.Second, 40 * time.Second, 90 * time.Second}[r.Draw(3)]
+	expiry := []time.Duration{3600 * time.Second, 300 * time.Second, 90 * time.Second, 3600 * time.Second, 40 * time.Second}[r.Draw(5)]
 	pre := lntypes.Preimage(h32("preimage", i))
 	sp := &InvSpec{
 		Idx: i, Kind: kind, Preimage: pre, Hash: pre.Hash(), Addr: h32("addr", i),
